@@ -64,10 +64,10 @@ type kWorld struct {
 type kPool struct{ ra, rb, s *big.Int }
 
 type kSnap struct {
-	bal    [][]*big.Int       // [account][denom]
-	pools  map[[2]int]kPool   // by (denomA, denomB)
+	bal    [][]*big.Int        // [account][denom]
+	pools  map[[2]int]kPool    // by (denomA, denomB)
 	shares map[[3]int]*big.Int // by (account, denomA, denomB)
-	extra  string             // anything that does not fit the projection (unknown denoms, depositors, malformed ids)
+	extra  string              // anything that does not fit the projection (unknown denoms, depositors, malformed ids)
 }
 
 func kSetup(g kGenesis) *kWorld {
@@ -236,8 +236,8 @@ func (s *kSnap) share(a, x, y int) *big.Int {
 
 // kTrip remembers the last successful deposit, for the deposit-then-withdraw round trip.
 type kTrip struct {
-	active        bool
-	who, x, y     int
+	active         bool
+	who, x, y      int
 	dx, dy, minted *big.Int
 }
 
@@ -1068,7 +1068,7 @@ var kAllSplits = []string{
 // ------------------------------------------------------------ history runner
 
 type kHist struct {
-	Kind    string   `json:"kind"` // "keeper"
+	Kind    string   `json:"kind"`           // "keeper"
 	Mode    string   `json:"mode,omitempty"` // "" = keeper calls; "tx" = ValidateBasic + msg server at generated block times
 	Seed    uint64   `json:"seed"`
 	Idx     int      `json:"history"`
